@@ -1,6 +1,7 @@
 """Filters for Python STIX2 DataSources, DataSinks, DataStores"""
 
 import collections
+import collections.abc
 from datetime import datetime
 import re
 
@@ -82,11 +83,13 @@ class Filter(collections.namedtuple('Filter', ['property', 'op', 'value'])):
         self = super(Filter, cls).__new__(cls, prop, op, value)
         return self
 
-    def _check_property(self, stix_obj_property):
+    def _check_property(self, stix_obj_property, text_timestamps=True):
         """Check a property of a STIX Object against this filter.
 
         Args:
             stix_obj_property: value to check this filter against
+            text_timestamps: whether a string value may be a timestamp (it
+                may in a plain dictionary; in a STIX object it is a string)
 
         Returns:
             True if property matches the filter,
@@ -101,7 +104,8 @@ class Filter(collections.namedtuple('Filter', ['property', 'op', 'value'])):
                 isinstance(self.value, tuple):
             # e.g. the "in" operator with a list of timestamp strings
             filter_value = tuple(
-                stix2.utils.parse_into_datetime(v) if isinstance(v, str) else v
+                stix2.utils.parse_into_datetime(v)
+                if isinstance(v, (str, datetime)) else v
                 for v in self.value
             )
         elif isinstance(self.value, datetime):
@@ -110,7 +114,7 @@ class Filter(collections.namedtuple('Filter', ['property', 'op', 'value'])):
         else:
             filter_value = self.value
 
-        if isinstance(stix_obj_property, str):
+        if text_timestamps and isinstance(stix_obj_property, str):
             # An object kept as a dictionary (e.g. of an unregistered custom
             # type) holds its timestamps as text.  Against a timestamp filter
             # value, compare instants rather than spellings.
@@ -118,7 +122,9 @@ class Filter(collections.namedtuple('Filter', ['property', 'op', 'value'])):
             if obj_timestamp is not None:
                 if isinstance(filter_value, tuple):
                     values = tuple(
-                        _timestamp_or_none(v) if isinstance(v, str) else v
+                        _timestamp_or_none(v) if isinstance(v, str) else
+                        stix2.utils.parse_into_datetime(v)
+                        if isinstance(v, datetime) else v
                         for v in filter_value
                     )
                     if all(isinstance(v, datetime) for v in values):
@@ -199,6 +205,13 @@ def _check_filter(filter_, stix_obj):
     # need to extract the first property from the string.
     prop = filter_.property.split('.')[0]
 
+    if not isinstance(stix_obj, collections.abc.Mapping):
+        # the path goes on below a value that has no properties
+        return False
+
+    # only a plain dictionary holds timestamps as text
+    text_timestamps = not isinstance(stix_obj, stix2.base._STIXBase)
+
     if prop not in stix_obj.keys():
         # check filter "property" is in STIX object - if cant be
         # applied to STIX object, STIX object is discarded
@@ -222,13 +235,13 @@ def _check_filter(filter_, stix_obj):
     elif isinstance(stix_obj[prop], list):
         # Check each item in list property to see if it matches
         for elem in stix_obj[prop]:
-            if filter_._check_property(elem) is True:
+            if filter_._check_property(elem, text_timestamps) is True:
                 return True
         return False
 
     else:
         # Check if property matches
-        return filter_._check_property(stix_obj[prop])
+        return filter_._check_property(stix_obj[prop], text_timestamps)
 
 
 class FilterSet(object):
